@@ -89,6 +89,7 @@ def check(F, rep, tier):
         f = zfn(F, "<impl crate::version::zerv::core::Zerv>::" + proc)
         if not rep.anchor("R05.3", "Zerv::" + proc, f): continue
         rep.fn_seen(f)
+        f = mir.inlined(F, f, depth=2, keep=("reset_lower_precedence_components", "checked_bump"), ok=lambda F_, caller, cp, g: g is not None and g.kind != "closure" and cp.startswith(B))
         probs = []
         npaths = 0
         for p in mir.enum_paths(f, limit=5000):
@@ -127,6 +128,8 @@ def check(F, rep, tier):
     f = zfn(F, "<impl crate::version::zerv::core::Zerv>::process_pre_release_num")
     if rep.anchor("R05.3", "Zerv::process_pre_release_num", f):
         rep.fn_seen(f)
+        # helpers of the bump module are seen through (a shared `pre_release_or_alpha()` that resets would otherwise hide the reset)
+        f = mir.inlined(F, f, depth=2, keep=("reset_lower_precedence_components", "checked_bump"), ok=lambda F_, caller, cp, g: g is not None and g.kind != "closure" and cp.startswith(B))
         probs = []; npaths = 0
         for p in mir.enum_paths(f, limit=5000):
             if f.blocks[p[-1]]["t"][0] != "ret": continue
@@ -217,6 +220,26 @@ def check(F, rep, tier):
             else: rep.bad("R05.5", "index-dispatch:" + v, "an index-addressed operation on Var::%s runs %s, the by-name flag runs %s" % (v, tab.get(v), m), pv.where())
         for v in tab:
             if v not in want: rep.bad("R05.5", "index-dispatch-extra:" + str(v), "process_var_field processes Var::%s" % v, pv.where())
+        # the amounts handed to the processors are the parsed ones, untouched: an adaptor in between (filter(!= 0), map, min, ...)
+        # makes the indexed form differ from the by-name flag
+        ADAPT = ("Option::<T>::filter", "Option::<T>::map", "Option::<T>::and_then", "Option::<T>::or", "Option::<T>::xor", "Option::<T>::take", "::min", "::max", "::saturating_", "::wrapping_", "::checked_")
+        touched = []
+        n_args = 0
+        for bi, t in pv.calls():
+            m = (mir.callee(t) or "").rsplit("::", 1)[-1]
+            if not m.startswith("process_"): continue
+            for ai in (1, 2):
+                if ai >= len(t[2]): continue
+                n_args += 1
+                for o in mir.trace_op(pv, t[2][ai], transparent=()):
+                    if o.kind == "call":
+                        c = mir.callee(pv.blocks[o.data]["t"]) or ""
+                        if any(x in c for x in ADAPT): touched.append("%s arg %d via %s" % (m, ai, c.rsplit("::", 1)[-1]))
+                    elif o.kind in ("rv",):
+                        rv = mir.rv_at(pv, *o.data)
+                        if rv[0] in ("bin", "un"): touched.append("%s arg %d via %s" % (m, ai, rv[1]))
+        if touched: rep.bad("R05.5", "index-amount-altered", "process_var_field alters the parsed override / bump amount before handing it to the processor: %s" % sorted(set(touched))[:3], pv.where())
+        elif n_args: rep.ok("R05.5", "override / bump amounts reach the processors as parsed (%d arguments)" % n_args, nontrivial_key="amounts")
         # R05.6 every other Var variant is rejected
         err_variants = set()
         for bi, si, st in pv.stmts():
